@@ -10,6 +10,7 @@ import (
 	"fmt"
 	"html"
 	"strings"
+	"unicode/utf8"
 
 	"go.pennock.tech/tabular"
 	"go.pennock.tech/tabular/length"
@@ -242,10 +243,22 @@ func oracleText(g *Gen, t, w, res string, sizes bool) (viol, known []string) {
 			break
 		}
 		if m := length.StringCells(l); m != total {
-			// every segment is individually exact (the bytes are the expected ones) yet the
-			// whole-line measure differs: the dependency's width is not additive here (D20)
-			known = append(known, "d20-nonadditive-line-width")
 			_ = i
+			// every byte is the expected one, yet the line does not measure what its parts add up to.
+			// Either a glyph of the decoration is not one cell wide (the layout counts each as one: D25) ...
+			wide := false
+			dd := d
+			for _, gp := range decorFields(&dd) {
+				if *gp != "" && length.StringCells(*gp) != 1 {
+					wide = true
+				}
+			}
+			if wide {
+				known = append(known, "d25-decoration-glyph-not-one-cell")
+				break
+			}
+			// ... or every part measures what was assumed and the dependency's measure is not additive here (D20)
+			known = append(known, "d20-nonadditive-line-width")
 			break
 		}
 	}
@@ -512,7 +525,7 @@ func oracleJSON(g *Gen, t, res string) (viol []string) {
 			var o []kvp
 			for i := range r.cells {
 				c := &r.cells[i]
-				if skip[i] && c.Empty() {
+				if skip[i] && c.String() == "" { // "empty" as the statement means it: the text, not the cell's own flag
 					continue
 				}
 				b, err := json.Marshal(c.Item())
@@ -584,6 +597,12 @@ func oracleJSON(g *Gen, t, res string) (viol []string) {
 		for j := range got[i] {
 			var cb bytes.Buffer
 			json.Compact(&cb, []byte(expObjs[i][j].v))
+			if got[i][j].k != expObjs[i][j].k && got[i][j].v == cb.String() && !utf8.ValidString(expObjs[i][j].k) &&
+				got[i][j].k == perByteFFFD(expObjs[i][j].k) {
+				// the key is the header text with its ill-formed bytes replaced (the JSON encoder's doing): recorded finding D27
+				pendingKnown = append(pendingKnown, "d27-json-invalid-utf8-header")
+				continue
+			}
 			if got[i][j].k != expObjs[i][j].k || got[i][j].v != cb.String() {
 				viol = append(viol, fmt.Sprintf("json object %d member %d is %q:%s, expected %q:%s", i, j, got[i][j].k, got[i][j].v, expObjs[i][j].k, cb.String()))
 			}
@@ -708,4 +727,20 @@ func oracleMD(g *Gen, t, res string) (viol []string) {
 		checkRow(2+i, cells)
 	}
 	return
+}
+
+// perByteFFFD: every byte that does not start a well-formed UTF-8 sequence replaced by U+FFFD (what
+// encoding/json does to a string; strings.ToValidUTF8 would collapse a run into one)
+func perByteFFFD(s string) string {
+	var b strings.Builder
+	for i := 0; i < len(s); {
+		r, n := utf8.DecodeRuneInString(s[i:])
+		if r == utf8.RuneError && n == 1 {
+			b.WriteString("\uFFFD")
+		} else {
+			b.WriteString(s[i : i+n])
+		}
+		i += n
+	}
+	return b.String()
 }
